@@ -233,3 +233,29 @@ func (d *delit) canonMinMax(as *ast.AssignStmt) []ast.Stmt {
 	}
 	return []ast.Stmt{assign([]ast.Expr{x}, token.DEFINE, []ast.Expr{a}), clamp}
 }
+
+// canonMapsCopy: `maps.Copy(D, S)` (package maps of the standard library) is the loop it abbreviates,
+//
+//	for k, v := range S { D[k] = v }
+//
+// for a destination D that is a plain name or field path. deliteralize drops the import when nothing else uses it.
+func (d *delit) canonMapsCopy(es *ast.ExprStmt) ast.Stmt {
+	call, ok := es.X.(*ast.CallExpr)
+	if !ok || len(call.Args) != 2 || !d.importsMaps {
+		return nil
+	}
+	sel, ok := call.Fun.(*ast.SelectorExpr)
+	if !ok || sel.Sel.Name != "Copy" {
+		return nil
+	}
+	if pk, ok := sel.X.(*ast.Ident); !ok || pk.Name != "maps" || pk.Obj != nil {
+		return nil
+	}
+	dst, src := call.Args[0], call.Args[1]
+	if !simpleOperand(dst) {
+		return nil
+	}
+	k, v := d.tmp(), d.tmp()
+	body := assign([]ast.Expr{&ast.IndexExpr{X: dst, Index: ast.NewIdent(k.Name)}}, token.ASSIGN, []ast.Expr{ast.NewIdent(v.Name)})
+	return &ast.RangeStmt{Key: k, Value: v, Tok: token.DEFINE, X: src, Body: &ast.BlockStmt{List: []ast.Stmt{body}}}
+}
